@@ -8,14 +8,14 @@ from hypothesis import strategies as st
 
 from vf import zoo
 from vf.core import CaseResult, dtype_mode
-from vf.oracles import norm_logpdf, quad_1d
+from vf.oracles import norm_cdf, norm_logpdf, quad_1d
 
 PROPERTY = "C03"
 RULE = ("Flows assembled from zoo transforms (compositions of depth 1-4: spline CDFs with/without tails via "
         "CompositeCDF(Sigmoid, .), affine/LU/QR/SVD/permutation layers, masked autoregressive and coupling layers, Inverse "
         "wrappers) over StandardNormal / DiagonalNormal / ConditionalDiagonalNormal, 1-3 context rows, float64. (a) 1-D: all "
-        "parameter regimes (fresh/zero/small/moderate/nonuniform); integral of exp(log_prob(x|c)) by adaptive Gauss-Legendre "
-        "quadrature on panels aligned with the knots, over the image under inverse of the base's +-9 sigma box enlarged by "
+        "parameter regimes (fresh/zero/small/moderate/nonuniform/flatbin = one wide flat or narrow steep bin); integral of exp(log_prob(x|c)) by adaptive Gauss-Legendre "
+        "quadrature on panels aligned with the knots and bisected wherever T moves through more than 2e-3 of base mass (aim only; spikes below 1e-13 relative width = inconclusive), over the image under inverse of the base's +-9 sigma box enlarged by "
         "20 % AND over a fixed box [-60, 60] (maps that are not onto lose mass in both); 2-D: bounded-distortion regime "
         "(fresh/small, <= 4 bins), iterated quadrature. Violation if |mass - 1| > 5e-5 + 10*err; err > 1e-5 = inconclusive. "
         "(b) any dimension <= 6: log_prob(x) = closed-form base log-density at T(x) + T's log-abs-det (1e-10). Non-trivial: "
@@ -37,7 +37,7 @@ def _case(draw):
     what = draw(st.sampled_from(["mass1d", "mass1d", "mass1d", "mass1d", "mass1d", "mass1d", "mass2d", "differential", "differential", "differential"]))
     if what == "mass1d":
         c = draw(zoo.transform_case({"img": False, "flat_max": 1, "doms": ["R"], "fn_box": False, "multiscale": False, "umnn": False, "exclude": NO,
-                                     "regimes": ["fresh", "zero", "small", "moderate", "nonuniform"]}))
+                                     "regimes": ["fresh", "zero", "small", "moderate", "nonuniform", "flatbin"]}))
     elif what == "mass2d":
         c = draw(zoo.transform_case({"img": False, "flat_max": 2, "doms": ["R"], "fn_box": False, "multiscale": False, "umnn": False,
                                      "exclude": NO + ["logtanh", "leakyrelu"], "regimes": ["fresh", "small"], "nparts": [1, 2, 2, 3]}))
@@ -208,10 +208,34 @@ def run_case(case):
             if boxes[0][0] > -60.0 and boxes[0][1] < 60.0:
                 boxes.append((-60.0, 60.0))   # independent of the inverse: catches maps that are not onto
             masses = []
+
+            def base_cdf(xs):     # aim only: how much base mass lies left of T(x)
+                with torch.no_grad():
+                    y = b.module(torch.tensor(xs)[:, None], c1.expand(len(xs), -1) if c1 is not None else None)[0][:, 0].numpy()
+                return norm_cdf((y - mu[r, 0]) / math.exp(ls[r, 0]))
+
+            def refine(xs):
+                """bisects panels across which T moves through more than 2e-3 of base mass (chains of flat and steep bins squeeze
+                   the whole density into spikes far narrower than any fixed grid)"""
+                xs = np.unique(np.asarray(xs, dtype=np.float64))
+                for _ in range(60):
+                    u = base_cdf(xs)
+                    wide = (np.abs(np.diff(u)) > 2e-3) & (np.diff(xs) > 1e-13 * (1 + np.abs(xs[:-1])))
+                    if not wide.any() or len(xs) > 200000:
+                        break
+                    xs = np.unique(np.concatenate([xs, 0.5 * (xs[:-1][wide] + xs[1:][wide])]))
+                return xs, bool(wide.any())
             for lo, hi in boxes:
                 try:
                     f = lambda x: np.exp(logp(x))  # noqa
-                    v, e, _ = quad_1d(f, lo, hi, breaks, tol=1e-8, max_evals=300000)
+                    try:
+                        br_box, unresolved = refine([lo, hi] + [v_ for v_ in breaks if lo < v_ < hi])
+                    except Exception:
+                        br_box, unresolved = breaks, False
+                    if unresolved:
+                        res.labels.append("spike_below_resolution")
+                        continue
+                    v, e, _ = quad_1d(f, lo, hi, list(br_box), tol=1e-8, max_evals=300000)
                     edge = max(float(f(np.array([lo]))[0]), float(f(np.array([hi]))[0]))
                 except Exception as e:
                     if type(e).__name__ == "InputOutsideDomain":
